@@ -35,6 +35,7 @@ PREDICTS = {
     'C10-python-digit-name': {'py-syntax', 'identifier', 'template'},
     'C10-digit-name': {'identifier', 'template', 'ts-grammar', 'go-grammar'},
     'C10-python-generic-enum-arg': {'py-import-not-subscriptable'},
+    'C10-go-keyword-name': {'go-grammar'},
 }
 
 OVERRIDE = ('#[typeshare(typescript(type = "Record<string, number[]>"), kotlin(type = "Map<String, List<Int>>"), '
@@ -418,6 +419,7 @@ def judge(chk, cases, tag):
             tsq.append((k, f'(c10_ts_parse {S(text)})'))
         if lang == 'go':
             goq.append((k, f'(c10_go_parse {S(text)})'))
+            goq.append((('cls', k), f'(c10_go_cls {back.items_sx(r["ir"])})'))
     cfgkeys = sorted(set((cases[k][0], json.dumps(cases[k][1], sort_keys=True)) for k in idx))
     cfgq = [f'(c10_cfg {l} {back.cfg_sx(json.loads(c))})' for l, c in cfgkeys]
     goa = dict(zip([k for k, _ in goq], vf.model([q for _, q in goq])))
@@ -448,7 +450,7 @@ def judge(chk, cases, tag):
         dom = vf.sx_get(clsa[j], 'dom') == 'true' and cfg_ok[(lang, json.dumps(cfg, sort_keys=True))]
         if not cfg_ok[(lang, json.dumps(cfg, sort_keys=True))]:
             chk.count('inadmissible_configuration')
-        known = list(vf.sx_get(clsa[j], 'known'))
+        known = list(vf.sx_get(clsa[j], 'known')) + list(goa.get(('cls', k), []))
         decls, labels, fails, why = obs[k]
         fails = list(fails)
         lex = lexa[j]
@@ -650,6 +652,7 @@ WITNESSES = [
     ('kotlin', {'package': 'com.x'}, '#[typeshare]\npub struct S { #[serde(rename = "1st")] pub first: u8 }\n', 'C10-digit-name'),
     ('typescript', {}, '#[typeshare]\npub struct S { #[serde(rename = "1st")] pub first: u8, #[serde(rename = "2-fa")] pub two: u8 }\n', 'C10-digit-name'),
     ('go', {'package': 'p'}, '#[typeshare]\npub struct S { pub _1x: u8 }\n', 'C10-digit-name'),
+    ('go', {'package': 'p'}, '#[typeshare]\n#[serde(tag = "type", content = "content")]\npub enum switch { default(String) }\n', 'C10-go-keyword-name'),
     ('python', {}, '#[typeshare]\n#[serde(tag = "t", content = "c")]\npub enum G { #[serde(rename = "1a")] V(u8) }\n#[typeshare]\npub struct S { pub _1x: u8 }\n', 'C10-python-digit-name'),
     ('python', {}, '#[typeshare]\n#[serde(tag = "t", content = "c")]\npub enum G<T> { V(T) }\n#[typeshare]\npub type Al = Vec<G<u8>>;\n', 'C10-python-generic-enum-arg'),
 ]
